@@ -29,6 +29,7 @@ pub struct Cfg {
     pub rows_each: Vec<String>,
     pub default_chan: bool,
     pub user_vars: Value,
+    pub packages: Value,
 }
 
 impl Cfg {
@@ -53,6 +54,7 @@ impl Cfg {
                 .unwrap_or_default(),
             default_chan: g("default_chan").as_bool().unwrap_or(true),
             user_vars: g("user_vars"),
+            packages: g("packages"),
         }
     }
 }
@@ -167,6 +169,25 @@ async fn build_engine(cfg: &Cfg, toml: &str) -> Engine {
         b = b.add_plugin(&SqliteStore);
     }
     let engine = b.build().await.expect("build engine").start();
+    // packages a client registers (config "packages": [{"name": .., "run_as": "msg" | "irq"}]): they live in the store only
+    if let Some(list) = cfg.packages.as_array() {
+        for p in list {
+            let name: &'static str = Box::leak(p["name"].as_str().unwrap_or("app.pack").to_string().into_boxed_str());
+            let run_as = if p["run_as"].as_str() == Some("msg") { acts::ActRunAs::Msg } else { acts::ActRunAs::Irq };
+            let meta = acts::ActPackageMeta {
+                name,
+                desc: "",
+                icon: "",
+                doc: "",
+                version: "0.1.0",
+                schema: json!({}),
+                run_as,
+                resources: vec![],
+                catalog: acts::ActPackageCatalog::App,
+            };
+            engine.extender().register_package(&meta).expect("register package");
+        }
+    }
     if let Some(vars) = cfg.user_vars.as_object() {
         for (name, defaults) in vars {
             engine.extender().register_var(&UserVar { name: name.clone(), defaults: defaults.clone() });
